@@ -53,6 +53,7 @@ fn run(name: &str, args: &Value) -> Value {
         "c01_blocking_panic" => c01::blocking_panic(args),
         "c06_history" => c06::history(args),
         "c06_inprocess" => c06::inprocess(args),
+        "c06_sink_handed_over" => c06::sink_handed_over(args),
         "c07_ws" => c07::ws(args),
         "c07_http" => c07::http(args),
         "c19_chunking" => c19::chunking(args),
@@ -64,6 +65,7 @@ fn run(name: &str, args: &Value) -> Value {
         "c18_lifecycle" => c18::lifecycle(args),
         "c10_graceful_stop" => c10::graceful_stop(args),
         "c11_limits" => c11::limits(args),
+        "c11_inactive_peer" => c11::inactive_peer(args),
         "c12_ws_batch" => c12::ws_batch(args),
         "cfg_journey" => cfg::journey(args),
         "c12_two_batches" => c12::two_batches(args),
